@@ -8,6 +8,7 @@ ACCEPTED = set(json.load(open(os.path.join(ROOT, "tools", "accepted.json"))))  #
 for f in sorted(glob.glob(os.path.join(ROOT, "tools", "checks.d", "C*.json"))):
     c = json.load(open(f))
     if c["property_id"] in ACCEPTED:
+        CHECKS = [x for x in CHECKS if x["property_id"] != c["property_id"]]  # checks.d replaces the entry of checks.json
         CHECKS.append(c)
 CHECKS.sort(key=lambda c: c["property_id"])
 NA = {}
